@@ -48,8 +48,11 @@ def run_streams(streams, seed, dump=False, render=False, extra_args=None):
             n = min(per, count - skip)
             if n <= 0:
                 continue
-            args = ["--class", cls, "--feat", str(feat), "--mode", mode, "--seed", str(seed * 1000 + i),
+            m, _, pol = mode.partition(":")
+            args = ["--class", cls, "--feat", str(feat), "--mode", m, "--seed", str(seed * 1000 + i),
                     "--count", str(n), "--skip", str(skip)]
+            if pol:
+                args += ["--policy", pol]
             if not dump:
                 args.append("--no-dump")
             if not render:
